@@ -297,7 +297,8 @@ func exec(planJSON []byte, run *core.Run) {
 		if pskMode {
 			snd.Setup(core.NewStream(p.Entropy + 1))
 		} else {
-			snd.SetupPSK(core.NewStream(p.Entropy+1), core.H(p.PSK), core.H(p.PSKID))
+			// a PSK session that succeeded (the plan's own PSK fields are empty in this mode)
+			snd.SetupPSK(core.NewStream(p.Entropy+1), core.NewPRNG(p.Entropy+2).Bytes(32), []byte("the earlier session"))
 		}
 	}
 	setupS := func(s *hpke.Sender) (enc []byte, sealer hpke.Sealer, err error) {
@@ -340,8 +341,9 @@ func exec(planJSON []byte, run *core.Run) {
 		run.Fault("entropy:short-reads")
 	}
 	if p.Reuse == 1 && err != nil {
-		// refusing to proceed on a reused object is acceptable (not silent)
-		run.T("reuse-refused")
+		// a Sender is not bound to the mode of its first setup: what the earlier session
+		// left in the object must not make this one fail
+		run.Violate("hpke.Sender.Setup", "error-after-earlier-session-in-another-mode", "mode %d kem %#x on a Sender object that was used for a setup in another mode before: %v", mode, p.KEM, err)
 		return
 	}
 	if err != nil {
@@ -483,7 +485,7 @@ func exec(planJSON []byte, run *core.Run) {
 		if rMode&1 == 1 {
 			rcv.Setup(enc)
 		} else {
-			rcv.SetupPSK(enc, core.H(p.PSK), core.H(p.PSKID))
+			rcv.SetupPSK(enc, core.NewPRNG(p.Entropy+2).Bytes(32), []byte("the earlier session"))
 		}
 	}
 	var opener hpke.Opener
@@ -513,8 +515,8 @@ func exec(planJSON []byte, run *core.Run) {
 		run.Fault("transport:enc-" + encFault)
 		run.T("enc", encFault)
 	}
-	if p.Reuse == 2 && err != nil {
-		run.T("reuse-refused")
+	if p.Reuse == 2 && err != nil && !faulted {
+		run.Violate("hpke.Receiver.Setup", "error-after-earlier-session-in-another-mode", "mode %d kem %#x on a Receiver object that was used for a setup in another mode before: %v", mode, p.KEM, err)
 		return
 	}
 	if !faulted && err != nil {
